@@ -733,6 +733,7 @@ def run(rep, prog, tier):
         for q, fn in mm.funcs.items():
             generic.rule_name(rep, prog, mm, fn, exceptions=RNAME_EXCEPTIONS)
             generic.rule_def(rep, mm, fn, exceptions=RDEF_EXCEPTIONS)
+            generic.rule_closure(rep, mm, fn)
             generic.rule_ret(rep, mm, fn)
             generic.rule_sig(rep, prog, mm, fn)
     check_integrate_phi(rep, prog, m)
